@@ -802,6 +802,8 @@ def corpus(repo: str) -> list[dict]:
     return jobs
 
 
+PINNED = {"check-inline-config.test::testInlineInvert2", "check-inline-config.test::testInlineError1"}
+
 API_PROGRAMS = [
     ("typeddict-key-note-marker", 'from typing import TypedDict\nclass D(TypedDict):\n    x: int\nd: D = {"x": 1}\nd[": note:"]\n', []),
     ("literal-note-marker", 'from typing import Literal\nx: Literal[": note:"] = 1\n', []),
@@ -1103,7 +1105,8 @@ def stage_S(ctx: Any, verdict: str) -> None:
     jobs = corpus(vlib.REPO)
     ctx.cov["corpus_programs"] = len(jobs)
     rng.shuffle(jobs)
-    jobs = jobs[: int(os.environ.get("VERIF_C13_PROGRAMS", ctx.n(400, 3000)))]
+    pinned = [j for j in jobs if j["name"] in PINNED]           # past findings: always in the sample
+    jobs = pinned + [j for j in jobs if j["name"] not in PINNED][: int(os.environ.get("VERIF_C13_PROGRAMS", ctx.n(400, 3000)))]
     for k, j in enumerate(jobs):
         j["seed"] = f"{ctx.seed}/{j['name']}"
         j["max_variants"] = ctx.n(6, 12)
